@@ -2,7 +2,8 @@
    disciplines only; goroutine confinement and channel hand-off are outside, see the
    manifest note).
 
-   C20_lockset_drf, C20_discipline_sound : for ALL traces (no bound).
+   C20_lockset_drf, C20_discipline_sound, C20_trace_check_sound : for ALL traces (no bound); locks have
+     write sections (exclusive) and read sections (shared, sync.RWMutex.RLock).
    C20_table_ok : the table generated from the repo's CURRENT source passes the discipline
      (vm_compute on the generated list; recompiled whenever the table changes).
    C20_table_v0_refuted : the table of the pinned tree does not (the four defects of F9
@@ -13,9 +14,13 @@ From Snow Require Import Model.LockTrace Proofs.LockTraceProofs Proofs.AccessTab
 Import ListNotations.
 
 (* In every well-formed trace, a location whose accesses (outside the initialisation phase
-   that precedes the first Fork) are all atomic, or all performed while holding one common
-   lock, or all plain reads, has no two conflicting accesses by different threads that are
-   unordered by happens-before (program order + release->later acquire + fork, closed). *)
+   that precedes the first Fork) are all atomic, or all performed inside sections of one common
+   lock - WRITE sections (Mutex.Lock, RWMutex.Lock), except that plain reads may be inside READ
+   sections (RWMutex.RLock), several of which may be open at once - or all plain reads, has no two
+   conflicting accesses by different threads that are unordered by happens-before (program order
+   + end of write section -> later section + end of read section -> later write section + fork,
+   closed).  Two plain reads never conflict; a read in a read section and a write in a write
+   section are ordered. *)
 Theorem C20_lockset_drf : forall tr,
   wf_locks tr -> wf_threads tr ->
   forall x, disciplined tr x ->
@@ -30,6 +35,13 @@ Theorem C20_discipline_sound : forall (field_of : loc -> string) (inst : loc -> 
   forall tr, respects field_of inst tbl tr -> forall x, disciplined tr x.
 Proof. exact discipline_sound. Qed.
 
+(* the one-pass checker run (extracted) on recorded executions accepts only well-formed traces
+   that respect the table *)
+Theorem C20_trace_check_sound : forall (field_of : loc -> string) (inst : loc -> string -> lock) tbl tr,
+  check_trace field_of inst tbl tr = true ->
+  wf_locks tr /\ wf_threads tr /\ respects field_of inst tbl tr.
+Proof. exact check_sound. Qed.
+
 (* the table extracted from the current source passes *)
 Theorem C20_table_ok : discipline_ok access_table = true.
 Proof. exact table_ok. Qed.
@@ -42,6 +54,14 @@ Theorem C20_tracked_fields_race_free :
   forall x i j e1 e2, i < j -> nth_error tr i = Some e1 -> nth_error tr j = Some e2 ->
     conflict e1 e2 x -> hb tr i j.
 Proof. exact tracked_fields_race_free. Qed.
+
+(* a recorded execution accepted by the checker against the extracted table has no unordered
+   conflicting pair of accesses to a tracked field *)
+Theorem C20_checked_trace_race_free :
+  forall (field_of : loc -> string) (inst : loc -> string -> lock) tr,
+  check_trace field_of inst access_table tr = true ->
+  wf_locks tr /\ wf_threads tr /\ respects field_of inst access_table tr /\ forall x, race_free_on tr x.
+Proof. exact checked_trace_race_free. Qed.
 
 (* the pinned tree: these tracked fields have no consistent discipline *)
 Theorem C20_table_v0_refuted :
@@ -67,6 +87,38 @@ Example C20_hypotheses_satisfiable :
   conflict (Wr 0 5) (Rd 1 5) 5 /\
   disciplined ex_tr 5 /\ hb ex_tr 2 5.
 Proof. exact hypotheses_satisfiable. Qed.
+
+(* read-write locks: two threads inside read sections of the same lock at the same moment
+   (position 4) is a well-formed trace; the write conflicts with the reads before and after it and
+   all three pairs are ordered *)
+Example C20_rw_hypotheses_satisfiable :
+  discipline_ok rw_tbl = true /\ wf_locks rw_tr /\ wf_threads rw_tr /\
+  respects ex_field_of ex_inst rw_tbl rw_tr /\
+  holds_r rw_tr 4 1 7 /\ holds_r rw_tr 4 2 7 /\
+  conflict (Rd 1 5) (Wr 0 5) 5 /\ conflict (Rd 2 5) (Wr 0 5) 5 /\ conflict (Wr 0 5) (Rd 2 5) 5 /\
+  hb rw_tr 4 9 /\ hb rw_tr 5 9 /\ hb rw_tr 9 12.
+Proof. exact rw_hypotheses_satisfiable. Qed.
+
+(* a WRITE made inside a READ section: the trace is well formed and faithful to its table, the
+   write and the other thread's read are unordered, and the table check rejects that table *)
+Example C20_write_under_read_lock_rejected :
+  discipline_ok rw_bad_tbl = false /\ failing_fields rw_bad_tbl = ["T.f"%string] /\
+  wf_locks rw_bad_tr /\ wf_threads rw_bad_tr /\ respects ex_field_of ex_inst rw_bad_tbl rw_bad_tr /\
+  conflict (Wr 0 5) (Rd 1 5) 5 /\ ~ hb rw_bad_tr 3 4 /\ ~ disciplined rw_bad_tr 5.
+Proof. exact write_under_read_lock_rejected. Qed.
+
+(* the premise of C20_tracked_fields_race_free is satisfiable for the GENERATED table: a trace
+   over its own field and lock names (emitted with the table, re-checked here on every run) that
+   respects it, enters at least 3 different locks, touches at least 3 tracked fields, and has two
+   readers inside one read section of the RWMutex *)
+Example C20_generated_table_respected :
+  wf_locks gen_ex_tr /\ wf_threads gen_ex_tr /\
+  respects gen_ex_field_of gen_ex_inst access_table gen_ex_tr /\
+  3 <= length (nodup Nat.eq_dec (acquired gen_ex_tr)) /\
+  3 <= length (nodup string_dec (map gen_ex_field_of (touched gen_ex_tr))) /\
+  (forall x, race_free_on gen_ex_tr x) /\
+  (exists i t1 t2 g, t1 <> t2 /\ holds_r gen_ex_tr i t1 g /\ holds_r gen_ex_tr i t2 g).
+Proof. exact generated_table_respected. Qed.
 
 (* and the conclusion can fail: an undisciplined well-formed trace with an unordered conflict *)
 Example C20_racy_trace_not_ordered :
